@@ -47,12 +47,29 @@ struct Env {
     QString body;       // body of the continuation, set by the operation that may trigger it
     char executing = 0; // 'p' finish() is running on ps[0], 't' then() on ts[0]
     std::shared_ptr<int> sentinel = std::make_shared<int>(0);
+    int refinished = 0;  // the body's guarded second completion went through (never, if finish() marks first)
+
+    void refinish()
+    {
+        if constexpr (std::is_void_v<T>) {
+            ps[0].finish();
+        } else {
+            ps[0].finish(T(9));
+        }
+    }
 
     void runBody()
     {
         if (body == "destroyCtx") {
             delete ctxObj;
             ctxObj = nullptr;
+        } else if (body == "refinish") {
+            // re-entry: a second completion source guarded by isFinished(), the idiom of the
+            // library's own managers (`if (promise.task().isFinished()) return; promise.finish(..)`)
+            if (!ps.empty() && refinished == 0 && !ps[0].task().isFinished()) {
+                ++refinished;
+                refinish();
+            }
         } else if (body == "dropOthers") {
             if (executing == 'p') {
                 ts.clear();
@@ -131,7 +148,7 @@ QJsonObject observe(Env<T> &e)
     return QJsonObject {
         { "runs", e.runs }, { "got", e.got }, { "fin", fin }, { "has", has },
         { "lv", liveOf<T>() }, { "lc", int(e.sentinel.use_count()) - 1 },
-        { "p", int(e.ps.size()) }, { "t", int(e.ts.size()) },
+        { "p", int(e.ps.size()) }, { "t", int(e.ts.size()) }, { "refin", e.refinished },
         { "ctx", e.ctxObj ? "alive" : "dead" }
     };
 }
